@@ -4,7 +4,7 @@ import ast
 from ..core import sym
 from ..core.expand import u, call_name, get_arg, bind_args, Expander, is_marker, phi_alternatives
 from ..core.loader import Inconclusive, const_value, parents
-from .common import (returns, all_nodes, callee, strip_shape, calls_in, guards_of, stmt_of, kw, find_assignments, compare_nf)
+from .common import (accumulation_as_sum, returns, all_nodes, callee, strip_shape, calls_in, guards_of, stmt_of, kw, find_assignments, compare_nf)
 
 EXPLANATION = (
     "Decided: D1 no lossy step on a time quantity: no int()/floor/floor-division/truncation is applied to float "
@@ -109,8 +109,8 @@ def rule_units(ck):
     o = ck.ob('C15-D1.const', 'csep.utils.constants', 'SECONDS_PER_DAY = %s' % (u(spd) if spd is not None else '?'), spd)
     v = N.nf(spd) if spd is not None else None
     (o.ok('86400') if v is not None and v.is_const() and v.const_value() == 86400 else o.fail('SECONDS_PER_DAY is not 86 400'))
-    for nm, spec in (('millis_to_days', '{p} / csep.utils.constants.SECONDS_PER_DAY / 1000'),
-                     ('days_to_millis', '{p} * csep.utils.constants.SECONDS_PER_DAY * 1000')):
+    for nm, spec in (('millis_to_days', '{p} / 86400 / 1000'),
+                     ('days_to_millis', '{p} * 86400 * 1000')):
         f = P.func(T + nm)
         ex = Expander(P, f)
         r = [x for x in returns(f) if x.value is not None]
@@ -208,6 +208,23 @@ CUM_DAYS = [0, 31, 59, 90, 120, 151, 181, 212, 243, 273, 304, 334, 365]
 MONTH_DAYS = [31, 28, 31, 30, 31, 30, 31, 31, 30, 31, 30, 31]
 
 
+def _same_sum(acc, want):
+    """sum([term for v in it]) equal to the wanted comprehension up to the name of the bound variable"""
+    w = ast.parse(want, mode='eval').body
+    try:
+        ca, cw = acc.args[0], w.args[0]
+        va, vw = ca.generators[0].target.id, cw.generators[0].target.id
+    except Exception:
+        return False
+
+    class R(ast.NodeTransformer):
+        def visit_Name(self, n):
+            return ast.Name(id='__v__', ctx=n.ctx) if n.id == self.v else n
+    ra, rw = R(), R()
+    ra.v, rw.v = va, vw
+    return u(ra.visit(sym.clone(acc))) == u(rw.visit(sym.clone(w)))
+
+
 def rule_decimal_year(ck):
     P = ck.prog
     ck.clause('D4')
@@ -236,8 +253,11 @@ def rule_decimal_year(ck):
         e = ex.expand(ast.Name(id='num_days', ctx=ast.Load()), at=f.cfg.exit)
         txt = u(e)
         want = "sum([calendar.monthrange(%s.year, i)[1] for i in range(1, %s.month)])" % (d, d)
+        acc = accumulation_as_sum(f, 'num_days')
         if txt.replace('builtins.', '') == want:
             ok = True
+        elif acc is not None and _same_sum(acc, want):
+            ok = 'accumulation loop over calendar.monthrange for months 1..month-1'
         else:
             ok, why = _table_days(P, f, d, e)
     (o.ok('calendar.monthrange over months 1..month-1 of the same year' if ok is True else str(ok)) if ok else o.fail(why))
